@@ -3,6 +3,6 @@ CONSTANTS
   StrictA = FALSE
   CheckCat = FALSE
   CheckOrder = FALSE
-INVARIANTS SizesAgree
+INVARIANTS SizesAgree OtherSizesAgree EncodedLenRelation
 POSTCONDITION TraceAccepted
 CHECK_DEADLOCK FALSE
